@@ -272,9 +272,9 @@ func (r *runner) worker() {
 	defer sol.Close()
 	ex := NewExec(r.P.prog, sol)
 	if r.tier == "thorough" {
-		ex.xsample = 97
+		ex.xsample = 29
 	} else {
-		ex.xsample = 499
+		ex.xsample = 97
 	}
 	var local []task
 	for {
